@@ -59,7 +59,7 @@ pub fn case_strategy(which: Which) -> BoxedStrategy<GCase> {
                 max_roots: roots,
             };
             let extra = proptest::collection::vec(
-                prop_oneof![Just("r0".to_string()), Just("r0/a".to_string()), Just("r0/b".to_string()), Just("r1".to_string())],
+                prop_oneof![Just("r0".to_string()), Just("r0/a".to_string()), Just("r0/b".to_string()), Just("r0x".to_string())],
                 0..3,
             );
             (
